@@ -42,6 +42,7 @@ type cst struct {
 	exit    *cst // statement executed when x == when
 	// if
 	conds    []bool
+	gkinds   []int // per guard: 0 = boolean variable (conds), 2 = raise("A"), 3 = runtime error
 	branches [][]*cst
 	els      []*cst
 	hasEls   bool
@@ -161,6 +162,14 @@ func (r *cref) one(s *cst) sig {
 		return g
 	case "if":
 		for i, c := range s.conds {
+			if s.gkinds != nil {
+				switch s.gkinds[i] {
+				case 2:
+					return sig{kind: "error", etype: "A"}
+				case 3:
+					return sig{kind: "error", etype: "Operand is not a number"}
+				}
+			}
 			if c {
 				return r.exec(s.branches[i])
 			}
@@ -297,7 +306,16 @@ func c04Render(list []*cst, ind string, b *strings.Builder, loopVar string) {
 				if i > 0 {
 					kw = "} elif"
 				}
-				fmt.Fprintf(b, "%s%s g%d {\n", ind, kw, i)
+				guard := fmt.Sprintf("g%d", i)
+				if s.gkinds != nil {
+					switch s.gkinds[i] {
+					case 2:
+						guard = "raise(\"A\", \"d\", 1)"
+					case 3:
+						guard = "1 + \"a\" == 1"
+					}
+				}
+				fmt.Fprintf(b, "%s%s %s {\n", ind, kw, guard)
 				c04Render(s.branches[i], ind+"  ", b, loopVar)
 			}
 			if s.hasEls {
@@ -613,6 +631,44 @@ func c04Loops(c *Ctx) {
 					br = append(br, []*cst{mk(10 + i)})
 				}
 				c04Run(c, []*cst{mk(1), {kind: "if", conds: conds, branches: br, hasEls: els, els: []*cst{mk(19)}}, mk(2)}, conds)
+			}
+		}
+	}
+	// if chains in which a guard fails: the error leaves the statement, no later
+	// guard is evaluated and no branch runs; at top level and inside try
+	for n := 1; n <= 3; n++ {
+		total := 1
+		for i := 0; i < n; i++ {
+			total *= 4
+		}
+		for code := 0; code < total; code++ {
+			conds := make([]bool, n)
+			gk := make([]int, n)
+			var br [][]*cst
+			failing := false
+			x := code
+			for i := 0; i < n; i++ {
+				switch x % 4 {
+				case 1:
+					conds[i] = true
+				case 2, 3:
+					gk[i] = x % 4
+					failing = true
+				}
+				x /= 4
+				br = append(br, []*cst{mk(10 + i)})
+			}
+			if !failing {
+				continue
+			}
+			for _, els := range []bool{false, true} {
+				if !c.Mine() {
+					continue
+				}
+				ifst := &cst{kind: "if", conds: conds, gkinds: gk, branches: br, hasEls: els, els: []*cst{mk(19)}}
+				c04Run(c, []*cst{mk(1), ifst, mk(2)}, conds)
+				c04Run(c, []*cst{mk(1), {kind: "try", body: []*cst{ifst, mk(3)}, excepts: []cexc{{types: []string{"A"}, block: []*cst{mk(30)}}, {block: []*cst{mk(31)}}},
+					hasOther: true, other: []*cst{mk(32)}, hasFin: true, fin: []*cst{mk(33)}}, mk(2)}, conds)
 			}
 		}
 	}
